@@ -140,7 +140,8 @@ impl Prop for C17 {
     // array state patterns over EVERY numeric element kind (the pattern matcher slices the matrix per kind), three machines:
     // head | tail sum, two-item prefix | tail (sum of the odd positions), first … last
     for k in crate::refm::REAL_KINDS.iter().filter(|k| **k != "r64") {
-      for (j, xs) in [vec![5i64, 3, 8], vec![1], vec![2, 7, 1, 8, 2], vec![9, 1], vec![4, 0, 6, 7], vec![]].iter().enumerate() {
+      // (no empty vector: the literal [] has no element kind, so a machine declared over [k] rightly rejects it)
+      for (j, xs) in [vec![5i64, 3, 8], vec![1], vec![2, 7, 1, 8, 2], vec![9, 1], vec![4, 0, 6, 7], vec![3, 3]].iter().enumerate() {
         for pat in ["sum", "odd", "ends"] {
           if tier == Tier::Quick && (j + pat.len() + k.len() + seed as usize) % 2 == 1 { continue; }
           out.push(Case { id: format!("arraykind;kind={};pat={};k={}", k, pat, j), cell: format!("arraykind;kind={};pat={}", k, pat), input: json!({"mode": "arraykind", "kind": k, "xs": xs, "pat": pat}) });
